@@ -20,7 +20,7 @@ BOXES = ("mixed", "mixed", "boxed", "narrow", "narrow", "lower", "upper", "boxed
 
 def floors(tier):
     return {"runs": 500, "points_checked": 5000, "evaluations_with_component_on_bound": 1500, "fd_runs": 150, "runs_with_bounds_object_edited_in_place": 60, "runs_with_nested_run": 60, "nested_runs": 100,
-            "runs_with_low_precision_start": 80, "restart_legs": 300, "restart_legs_on_a_box_re-entered_with_last_digit_differences": 60, "runs_with_user_step_cap": 200, "runs_on_boxes_of_magnitude_1e20_and_more": 50, "runs_with_user_functions_working_in_place_on_their_argument": 80, "__nontrivial__": 200}
+            "runs_with_low_precision_start": 80, "restart_legs": 300, "runs_in_25_to_60_dimensions_with_memory_above_10": 100, "restart_legs_on_a_box_re-entered_with_last_digit_differences": 60, "runs_with_user_step_cap": 200, "runs_on_boxes_of_magnitude_1e20_and_more": 50, "runs_with_user_functions_working_in_place_on_their_argument": 80, "__nontrivial__": 200}
 
 
 def cases(tier, seed):
@@ -30,6 +30,11 @@ def cases(tier, seed):
         ps = gen.rand_spec(rng, gen.ALL_FAMILIES + ("exp_wall", "exp_wall", "qp_inf_region"), nmax=8, boxes=BOXES, starts=("interior", "face", "vertex", "outward"))
         cfg = e2e.rand_cfg(rng)
         cfg["jac"] = gen.pick(rng, list(MODES))
+        if i % 12 == 11:
+            # scale: dimensions and memories larger than the bulk of the cases
+            ps["n"] = int(rng.integers(25, 61))
+            cfg["maxcor"] = int(rng.integers(11, 31))
+            cfg["maxiter"] = int(rng.integers(20, 80))
         cfg["eps"] = float(gen.pick(rng, [1e-8, 1e-6]))
         cfg["finite_diff_rel_step"] = gen.pick(rng, [None, None, 1e-7])
         cfg["cb"] = "never"
@@ -114,6 +119,8 @@ def run(spec):
         out.count("runs_with_low_precision_start")
     nb = e2e.mon_box(out, P, tr, cfg["jac"], tags)
     out.count("runs")
+    if P.n >= 25:
+        out.count("runs_in_25_to_60_dimensions_with_memory_above_10")
     if cfg["jac"] != "callable":
         out.count("fd_runs")
     if tr.exc is not None:
